@@ -46,7 +46,7 @@ LEVELS = {'C09': 'exploration'}
 ALLOWED = (ServerError, ProtocolError, SSLVerificationError, NetworkError)
 PROBES = {'C09': ['layer.http', 'layer.web', 'layer.robots', 'layer.ftp', 'layer.crawl', 'long_line', 'raw_random', 'truncated', 'odd_location',
                   'odd_cookie', 'bad_compression', 'ftp_reply_mutated', 'ftp_listing_mutated', 'hostile_html', 'hostile_css', 'hostile_js',
-                  'hostile_sitemap', 'hostile_robots', 'per_url_error_seen', 'healthy_fetched_after_hostile', 'reset', 'stall']}
+                  'hostile_sitemap', 'hostile_robots', 'real_file_writer', 'per_url_error_seen', 'healthy_fetched_after_hostile', 'reset', 'stall']}
 INFO = {'C09': {
     'rule': 'workload = layer (http / web / robots / ftp / crawl) x valid traffic with 1..2 grammar-aware mutations or raw random bytes or a '
             'hostile document (HTML/CSS/JS/sitemap/robots.txt) x segmentation x end-of-stream behaviour (keep open, FIN, RST, stall); '
@@ -294,6 +294,28 @@ FTP_BAD_LISTINGS = [b'\xff\xfe\x00garbage\r\n', b'total 0\r\n', b'-rw-r--r--\r\n
                     b'type=file;size=10;modify=20180101000000;\r\n', b'Jan 01 2018\r\n', b'\r\n\r\n\r\n', b'-rw-r--r-- 1 ftp ftp 10 Feb 30 25:61 a\r\n']
 
 
+def gen_listing_rows(tape):
+    """LIST rows in the common formats with one field mutated per row (dates in particular)."""
+    rng = tape.subrng('listing.rng')
+    dates_unix = ['Jan 01  2018', 'Jan 01 12:30', 'Feb 30  2018', 'Jan 00 2018', 'Foo 01 2018', 'Jan 01 99999', 'Jan 01 25:61', 'Jan 32 12:30', '10-23-201', '2018-13-45 10:00',
+                  '01-01-18', '99-99-9999', '10-23-20141', 'Jan  1  201', '\u4e00\u6708 01 2018', 'Jan 01 0', '1 Jan 2018', '0000-00-00 00:00', 'Dec 31 23:59']
+    dates_dos = ['01-01-18  10:00AM', '10-23-201  09:00AM', '13-45-2018  99:99PM', '00-00-00  00:00AM', '10-23-2014  12:00XM', '1-1-1  1:1AM', '10-23-100  09:00AM',
+                 '10-23-999  09:00PM', '99-99-99  12:60PM', '10/23/2014  09:00AM']
+    rows = []
+    style = tape.choice(('unix', 'dos', 'mixed'), 'listing.style')
+    for _ in range(tape.between(1, 4, 'listing.nrows')):
+        if style == 'unix' or (style == 'mixed' and rng.random() < 0.5):
+            perm = rng.choice(['-rw-r--r--', 'drwxr-xr-x', 'lrwxrwxrwx', '?---------', '-rw-r--r--+', 'b---------', ''])
+            size = rng.choice(['10', '0', '99999999999999999999', '-1', 'abc', '4,  0', ''])
+            date = rng.choice(dates_unix)
+            name = rng.choice(['a.txt', 'sub', 'a -> b', ' ', 'x' * 300, '\xe9', '..', 'a\tb', ''])
+            rows.append('%s   1 ftp  ftp  %8s %s %s' % (perm, size, date, name))
+        else:
+            date = rng.choice(dates_dos)
+            rows.append('%s %s %s' % (date, rng.choice(['<DIR>', '10', 'abc', '', '99999999999999999999']), rng.choice(['x', 'a b', '', 'y' * 200])))
+    return ('\r\n'.join(rows) + '\r\n').encode('utf-8', 'surrogateescape')
+
+
 def layer_ftp(tape, r):
     fetches, user, pw, plan = hftp.gen_script(tape, False)
     nm = tape.between(1, 2, 'ftp.nmut')
@@ -321,7 +343,11 @@ def layer_ftp(tape, r):
                 pass
     listing = None
     if tape.chance(1, 2, 'ftp.listing'):
-        listing = FTP_BAD_LISTINGS[tape.draw(len(FTP_BAD_LISTINGS), 'ftp.listing.k')]
+        if tape.chance(1, 2, 'ftp.listing.gen'):
+            listing = gen_listing_rows(tape)
+        else:
+            listing = FTP_BAD_LISTINGS[tape.draw(len(FTP_BAD_LISTINGS), 'ftp.listing.k')]
+        plan['mlsd'] = tape.chance(1, 3, 'ftp.listing.mlsd')       # mostly LIST: that is where the heuristics parsers run
         for fx in fetches:
             fx['kind'] = 'listing'
         r.probes['ftp_listing_mutated'] += 1
@@ -388,8 +414,13 @@ def layer_crawl(tape, r, tier):
                 _mut_probes(r, res.mut)
             else:
                 doc = httpgen.hostile_document(tape, kind)
-                ct = {'html': 'text/html', 'css': 'text/css', 'js': 'application/javascript', 'sitemap': 'application/xml'}[kind]
-                res.wire = b'HTTP/1.1 200 OK\r\nContent-Type: ' + ct.encode() + b'\r\nContent-Length: %d\r\n\r\n' % len(doc) + doc
+                ct = {'html': 'text/html', 'css': 'text/css', 'js': 'application/javascript', 'sitemap': 'application/xml'}[kind].encode()
+                if tape.chance(1, 3, 'hostile.charset'):
+                    ct = ct + b'; charset=' + tape.choice(httpgen.ODD_CONTENT_TYPES, 'hostile.charset.v').split(b'charset=')[-1]
+                extra_h = b''
+                if tape.chance(1, 4, 'hostile.lastmod'):
+                    extra_h = b'Last-Modified: ' + tape.choice((b'garbage', b'Mon, 99 Foo 99999 99:99:99 GMT', b'0', b'\xff'), 'hostile.lastmod.v') + b'\r\n'
+                res.wire = b'HTTP/1.1 200 OK\r\nContent-Type: ' + ct + b'\r\n' + extra_h + b'Content-Length: %d\r\n\r\n' % len(doc) + doc
                 res.end = 'open'
                 res.mut = ['hostile-%s' % kind]
                 r.probes['hostile_' + kind] += 1
@@ -408,6 +439,9 @@ def layer_crawl(tape, r, tier):
             extra.append('--sitemaps')
         dbpath = os.path.join(sandbox, 'db.sqlite')
         argv = crawl.argv_for(opts, [s.url for s in starts], dbpath, extra=extra)
+        if tape.chance(1, 2, 'real_files'):
+            argv.remove('--delete-after')          # default file writer: documents are saved under the sandbox (cwd)
+            r.probes['real_file_writer'] += 1
         concurrency = tape.choice((1, 2, 3), 'concurrency')
 
         def setup(h, server, net):
@@ -452,7 +486,9 @@ def layer_crawl(tape, r, tier):
         else:
             # every healthy URL must still be fetched (reference crawl over the healthy part; hostile resources are leaves)
             own = [main.host]
-            if not with_robots:
+            # (only when every hostile resource is a document inside well-framed HTTP: a malformed HTTP message can
+            # legitimately desynchronise its keep-alive connection and fail the next URL on it as a per-URL error)
+            if not with_robots and all(x.hostile_kind != 'http' for x in hostile):
                 ref_rows, expected = crawl.reference_crawl(site, starts, opts, own)
                 reqs = {canon(e['url']) for e in server.log}
                 for u in expected:
